@@ -311,31 +311,58 @@ def install_formatter(S: Seams, fmt):
                 self.stdout = out
                 self.stderr = err
 
+        # the pipes of subprocess.run behave like the real ones: bytes unless text / universal_newlines / encoding / errors is given; in text mode
+        # the input is encoded and the output decoded with the given encoding or else with the *locale* encoding, which is an environment seam
+        # of the session (fmt["locale"], default utf-8), and line ends of the output are translated to "\n"
+        locale_enc = fmt.get("locale") or "utf-8"
+
         class FakeSp:
+            PIPE, STDOUT, DEVNULL = -1, -2, -3
+
             @staticmethod
             def run(cmd, shell=False, input=None, capture_output=False, **kw):
+                text_mode = bool(kw.get("text") or kw.get("universal_newlines") or kw.get("encoding") or kw.get("errors"))
+                enc = kw.get("encoding") or locale_enc
+                errs = kw.get("errors") or "strict"
+                if text_mode:
+                    if not isinstance(input, str):
+                        raise TypeError("a str is required for the input of a text-mode pipe, not " + type(input).__name__)
+                    raw_in = input.encode(enc, errs)
+                else:
+                    if not isinstance(input, (bytes, bytearray, memoryview)):
+                        raise TypeError("a bytes-like object is required, not " + type(input).__name__)
+                    raw_in = bytes(input)
+
+                def result(rc, out, err=b""):
+                    if text_mode:
+                        out = out.decode(enc, errs).replace("\r\n", "\n").replace("\r", "\n")
+                        err = err.decode(enc, errs).replace("\r\n", "\n").replace("\r", "\n")
+                    return Result(rc, out, err)
+
                 k = S.fmt_calls
                 S.fmt_calls += 1
                 act = S.event("fmt_cmd", f"call{k}")
                 if act == "fmt_exit1":
-                    return Result(1, b"", b"injected: formatter exit 1\n")
+                    return result(1, b"", b"injected: formatter exit 1\n")
                 if act == "fmt_garbage":
-                    return Result(0, b"def broken(:\n  <<< not python >>>\n")
+                    return result(0, b"def broken(:\n  <<< not python >>>\n")
                 if act == "fmt_empty":
-                    return Result(0, b"")
+                    return result(0, b"")
+                try:
+                    text = raw_in.decode("utf-8")  # the formatter reads its standard input as UTF-8 source, like black does
+                except UnicodeDecodeError as e:
+                    return result(123, b"", f"error: cannot format -: {e}\n".encode())
                 if act == "fmt_killed":
                     # the formatter is killed by a signal (negative return code) after it flushed a part of its output that happens to
                     # end at a statement boundary: the flushed text parses, but it is not the answer
-                    src_text = input.decode("utf-8") if isinstance(input, bytes) else str(input)
-                    cut = src_text.rfind("\n\ndef ", 0, max(len(src_text) * 2 // 3, 1))
-                    partial = src_text[: cut + 1] if cut > 0 else src_text[: src_text.find("\n") + 1]
-                    return Result(-9, partial.encode("utf-8"), b"")
-                text = input.decode("utf-8")
+                    cut = text.rfind("\n\ndef ", 0, max(len(text) * 2 // 3, 1))
+                    partial = text[: cut + 1] if cut > 0 else text[: text.find("\n") + 1]
+                    return result(-9, partial.encode("utf-8"), b"")
                 try:
                     out = stub_format(stub, mode, text)
                 except Exception as e:
-                    return Result(123, b"", f"error: cannot format -: {e}\n".encode())
-                return Result(0, out.encode("utf-8"))
+                    return result(123, b"", f"error: cannot format -: {e}\n".encode())
+                return result(0, out.encode("utf-8"))
 
         F.sp = FakeSp
         return
